@@ -34,10 +34,14 @@ for _m in sorted(pkgutil.iter_modules([_here]), key=lambda m: m.name):
                 if v.get(f) and v[f] not in META[k].get(f, ""):
                     META[k][f] = META[k].get(f, "") + " || " + v[f]
 
+# only properties listed in checks/ready.txt are claimed in MANIFEST.json (groups under construction are not)
+_ready = os.path.join(os.path.dirname(os.path.abspath(__file__)), "ready.txt")
+READY = [l.strip() for l in open(_ready) if l.strip() and not l.startswith("#")] if os.path.exists(_ready) else sorted(PROPERTIES)
+
 ALL_IDS = [json.loads(l)["id"] for l in open(os.path.join(os.path.dirname(os.path.abspath(__file__)), "..", "properties.jsonl"))]
 NOT_APPLICABLE = [
     {"property_id": p, "reason": "machinery under construction in this session: not yet claimed (the technique applies; see DESIGN.md section 4 %s)" % p}
-    for p in ALL_IDS if p not in PROPERTIES
+    for p in ALL_IDS if p not in READY
 ]
 NOTES = ("Every claimed property is decided by theorems in coq/Properties/<id>.v (statements only, each closed by `exact`, each followed by "
          "Print Assumptions) about models in coq/, tied to /repo's current working tree by bin/check's correspondence run. See DESIGN.md.")
